@@ -8,6 +8,7 @@ import json
 import logging
 import os
 import sys
+from pathlib import Path
 
 from codebasin import CodeBase, __version__, config, finder, util
 
@@ -123,6 +124,12 @@ def _compute(args: argparse.Namespace):
     # Export coverage information in P3 Analysis Library format.
     covarray = []
     for filename in codebase:
+        # Don't list symlinks if their target is in the code base.
+        # The target will be listed separately.
+        path = Path(filename)
+        if path.is_symlink() and path.resolve() in codebase:
+            continue
+
         relative_path = os.path.relpath(filename, start=source_dir)
 
         with open(filename, "rb") as f:
